@@ -182,6 +182,15 @@ def run(prop, tier):
             scns.append(make_conc(rng, k, packs[1], [4, 8, 16][(i // 3) % 3], 14, 0, False, stampede=True, rounds=4))
         else:
             scns.append(make_conc(rng, k, pack, nt, rp, rng.choice([0, 0, 20, 200]), False))
+    # the readers as tasks of rayon's global pool (what a par_iter extraction does): as many as the pool has workers, released
+    # together, so that every worker of that pool is inside a read at once - whatever the library needs in order to serve
+    # them must not be waiting for one of those workers
+    ncpu = os.cpu_count() or 2
+    for i in range(6 if tier == "quick" else 60):
+        k += 1
+        s_ = make_conc(rng, k, packs[1] if i % 2 == 0 else packs[i % 3], ncpu, 6, 0, False, stampede=(i % 2 == 0), rounds=2)
+        s_["pool"] = "rayon"
+        scns.insert(10 + 7 * i if 10 + 7 * i < len(scns) else len(scns), s_)
     for i in range(3 if tier == "quick" else 30):
         k += 1
         scns.append(make_evict(rng, k, packs[3], 4))
